@@ -141,6 +141,9 @@ class ResourceScenario(ScenarioData):
                 if hasattr(leave, "interval"):
                     start_idx = self.project.dateToIdx(leave.interval.start)
                     end_idx = self.project.dateToIdx(leave.interval.end)
+                    # A leave that ends inside a slot closes that slot as well
+                    if self.project.idxToDate(end_idx) < leave.interval.end:
+                        end_idx += 1
                     for i in range(max(start_idx, 0), min(end_idx, size)):
                         sb = self.scoreboard[i]
                         val = 0 if sb is None else (sb & 2)
